@@ -217,7 +217,9 @@ func (x *gateRun) exec(op string) {
 			return
 		}
 		i := p
-		fn, v, wr := dispFnID[dispFnLimit], 2+i+int(x.ctr%5), true
+		// the written value is unique in the schedule (and differs from the initial data), so "the data changed" and
+		// "it holds what this write carried" identify the write that was applied
+		fn, v, wr := dispFnID[dispFnLimit], int(x.ctr)+1, true
 		if f[0] == "gatero" {
 			fn, v, wr = dispFnID[string(model.FunctionTypeLoadControlLimitDescriptionListData)], 0, false
 		}
